@@ -1073,10 +1073,115 @@ def unknown_option_pass(ctx, workdir: str) -> None:
                 for k in (0, 2, 5, 9):
                     late_exit_case(ctx, workdir, periods, k, "normal")
             slow_disk_case(ctx, workdir, 4, 3, "normal")
+            for give_up_after in (0.5, 4, 15, 45, 200):
+                for how in ("timeout", "cancel"):
+                    failing_connect_given_up_case(ctx, workdir, give_up_after, how)
+            for delay in (2, 20, 200):
+                slow_disconnect_case(ctx, workdir, delay, "normal")
             ctx.clause("unknown-option-pass")
         finally:
             OPTIONS_IN_FORCE.clear()
             ctx.violation = original_violation
+
+
+def failing_connect_given_up_case(ctx, workdir: str, give_up_after: float, how: str) -> None:
+    """connect() fails with a TransportError every time it is tried; the application gives the entry `give_up_after`
+    virtual seconds (asyncio.timeout / task.cancel()) - long enough for any retry or back-off an option may add to be
+    under way.  However the entry ends, no background task is left and nothing keeps writing the file."""
+    from aiomysensors.exceptions import TransportError
+    from aiomysensors.gateway import Config, Gateway
+    from aiomysensors.model.node import Node
+
+    path = os.path.join(workdir, "giveup.json")
+    prepare_file(path, "present")
+    case = {"engine": "vloop", "failing_connect_given_up": [give_up_after, how]}
+
+    async def scenario() -> dict:
+        transport = ScriptedTransport()
+        transport.connect_error = TransportError("gateway unreachable")
+        gateway = Gateway(transport, Config(persistence_file=path, **OPTIONS_IN_FORCE))
+        before = set(asyncio.all_tasks())
+        observed = None
+
+        async def enter() -> None:
+            async with gateway:
+                await asyncio.sleep(3600)
+
+        task = asyncio.ensure_future(enter())
+        if how == "cancel":
+            await asyncio.sleep(give_up_after)
+            task.cancel()
+        try:
+            await (asyncio.wait_for(task, give_up_after) if how == "timeout" else task)
+        except BaseException as exc:  # noqa: BLE001
+            observed = exc
+        await asyncio.sleep(0)
+        left = [t for t in asyncio.all_tasks() if t not in before and t is not asyncio.current_task() and not t.done()]
+        before_text = open(path, encoding="utf-8").read() if os.path.exists(path) else None
+        gateway.nodes[55] = Node(55, 17, "2.0", sketch_name="added after the failed entry")
+        await asyncio.sleep(2 * SAVE_BOUND + 50)
+        after_text = open(path, encoding="utf-8").read() if os.path.exists(path) else None
+        out = {"observed": observed, "left": [repr(t)[:140] for t in left], "zombie_write": before_text != after_text}
+        for t in [t for t in asyncio.all_tasks() if t is not asyncio.current_task()]:
+            t.cancel()
+        return out
+
+    result, _loop = run_virtual(scenario)
+    ctx.case(("failing-connect-given-up", give_up_after, how, repr(sorted(OPTIONS_IN_FORCE.items()))), sample=case)
+    if isinstance(result, LogicalDeadlock):
+        ctx.violation("context-deadlock", f"logical deadlock in {case}", case)
+        return
+    if isinstance(result, BaseException):
+        from ..harness import scenario_exception
+
+        scenario_exception(ctx, result, case, "failing-connect")
+        return
+    ctx.clause("connect-failure-no-task-left")
+    if result["observed"] is None:
+        ctx.violation("connect-failure-not-propagated", "the context was entered although connect always fails", case)
+    if result["left"]:
+        ctx.violation("saver-leak-on-connect-failure", f"connect kept failing, the application gave up after {give_up_after} s "
+                                                       f"({how}): tasks left behind {result['left']}", case)
+    if result["zombie_write"]:
+        ctx.violation("save-after-exit", f"after the failed entry ({how} at {give_up_after} s) the file was still being rewritten", case)
+
+
+class SlowDisconnectTransport(ScriptedTransport):
+    """disconnect() takes `delay` virtual seconds (a peer that is slow to take the last bytes, a broker that lingers)."""
+
+    delay = 30.0
+
+    async def disconnect(self) -> None:
+        self.events.append(("disconnect", None, None))
+        await asyncio.sleep(self.delay)
+        self.disconnected += 1
+
+
+def slow_disconnect_case(ctx, workdir: str, delay: float, mode: str) -> None:
+    """Leaving the context with a transport whose disconnect takes a long time: when `async with` is over the transport IS
+    disconnected, the final registry is on disk and no task of the library is still running."""
+    path = os.path.join(workdir, "slowdisc.json")
+    prepare_file(path, "present")
+    transport = SlowDisconnectTransport()
+    transport.delay = delay
+    params = {"transport": "scripted", "mode": mode, "file": "present", "k": 2, "change": "late", "_transport": transport,
+              "slow_disconnect": delay}
+    case = {"engine": "vloop", "slow_disconnect": delay, "mode": mode}
+    result, _loop = run_virtual(lambda: context_scenario(params, path))
+    ctx.case(("slow-disconnect", delay, mode, repr(sorted(OPTIONS_IN_FORCE.items()))), sample=case)
+    if isinstance(result, LogicalDeadlock):
+        ctx.violation("context-deadlock", f"logical deadlock in {case}", case)
+        return
+    if isinstance(result, BaseException):
+        from ..harness import scenario_exception
+
+        scenario_exception(ctx, result, case, "slow-disconnect")
+        return
+    ctx.clause("slow-disconnect-exit")
+    if transport.disconnected != 1:
+        ctx.violation("disconnect-not-called", f"disconnect takes {delay} virtual seconds: when the context was left the transport "
+                                               f"had completed {transport.disconnected} disconnects", case)
+    judge_context(ctx, result, path, case)
 
 
 def exact_cadence_case(ctx, workdir: str, periods: int) -> None:
@@ -1628,6 +1733,10 @@ def run_case(ctx, case: dict) -> None:
             cancelled_exit_case(ctx, workdir, case["transport"], case["k"], case["cancelled_exit"], case["file"])
         elif "builtin_connect_failure" in case:
             builtin_connect_failure_case(ctx, workdir, case["builtin_connect_failure"])
+        elif "failing_connect_given_up" in case:
+            failing_connect_given_up_case(ctx, workdir, *case["failing_connect_given_up"])
+        elif "slow_disconnect" in case:
+            slow_disconnect_case(ctx, workdir, case["slow_disconnect"], case["mode"])
         elif "cancelled_app_save" in case:
             cancelled_app_save_case(ctx, workdir, case["cancelled_app_save"][0], case["cancelled_app_save"][1])
         elif "split_task" in case:
@@ -1710,6 +1819,12 @@ def run(ctx) -> None:
                     if ctx.mine():
                         second_session_case(ctx, workdir, transport, k)
             unknown_option_pass(ctx, workdir)
+            for i, (give_up_after, how) in enumerate(itertools.product((0.5, 4, 15, 45, 200), ("timeout", "cancel"))):
+                if ctx.mine(i):
+                    failing_connect_given_up_case(ctx, workdir, give_up_after, how)
+            for i, (delay, mode) in enumerate(itertools.product((2, 20, 200, 2000), ("normal", "body-raises"))):
+                if ctx.mine(i + 3):
+                    slow_disconnect_case(ctx, workdir, delay, mode)
             for i, (delay, at) in enumerate(((4, 605), (10, 300), (2, 880), (20, 450))):
                 if ctx.mine(i + 1):
                     cancelled_app_save_case(ctx, workdir, delay, at)
